@@ -51,9 +51,9 @@ func (obj Values) Hierarchy() []Symbol {
 	return []Symbol{ValuesSymbol, TrueSymbol}
 }
 
-// Eval panics.
+// Eval returns the first value or nil if there are no values.
 func (obj Values) Eval(s *Scope, depth int) Object {
-	return obj[0]
+	return obj.First()
 }
 
 // First value in the multiple values.
